@@ -22,6 +22,22 @@ CHECKS = {
         design="6/C14",
         note="fastcache absent (forwarding wrapper is what runs); CountError numbers parsed from the message.",
         technique="Coq proof (model = spec for all inputs) + exhaustive small-scope model/implementation correspondence evaluated with vm_compute"),
+    "C05": dict(
+        text="Theorems (all trees): with default arguments the five iterator transcriptions equal the structural "
+             "preorder / postorder / levels (concat, grouped, zig-zag) definitions; each output is a duplicate-free "
+             "permutation of the pre-order when node identities are distinct. Tie: every shape <= 6 nodes (every start "
+             "node, standalone and embedded in a larger tree) + random trees, all five real iterators drained and "
+             "compared in Coq; tree unchanged afterwards.",
+        design="6/C05", note="Generator laziness is not modelled (outputs compared as lists).",
+        technique="Coq proof (instance of the C06 theorems + permutation lemmas) + exhaustive small-scope correspondence"),
+    "C06": dict(
+        text="Theorems (all trees, filters, stop predicates, maxlevel in Z or None): each of the five iterator "
+             "transcriptions (incl. the fuelled worklist loops, fuel proved sufficient) equals its unrestricted order on "
+             "prune stop maxlevel t filtered by filter_; prune = the pointwise admitted set of the statement; same "
+             "multiset for all five; maxlevel <= 0 yields nothing. Tie: every shape <= 4 nodes x all stop subsets x all "
+             "filter subsets x maxlevel in {None,-1,0..h+2}, plus 5-node shapes and random larger trees.",
+        design="6/C06", note="filter_/stop are pure predicates; laziness not modelled.",
+        technique="Coq proof by nested tree induction / loop invariant over fuel + exhaustive small-scope correspondence"),
 }
 
 NOT_YET = "check not built yet in this round (work in progress; see DESIGN.md section 6 for the plan)"
